@@ -151,7 +151,7 @@ class QCow2(AlignedStream):
                 break
 
             if ext.magic == c_qcow2.QCOW2_EXT_MAGIC_BACKING_FORMAT:
-                self.backing_format = self.fh.read(ext.len).decode().upper()
+                self.backing_format = self.fh.read(ext.len).decode()
                 self.image_backing_format = self.backing_format.upper()
             elif ext.magic == c_qcow2.QCOW2_EXT_MAGIC_FEATURE_TABLE:
                 self.feature_table = self.fh.read(ext.len)
